@@ -283,6 +283,8 @@ func HarnessC09Smoke() {
 		``, ` `, `a="é"`, "a=\"x\ny\"", `a=$01`, `a = "1" b`,
 		// placeholder numbers around the representable range, and beyond 32 and 64 bits
 		`a = $2147483647`, `a = $2147483648`, `a = $4294967296`, `a = $4294967297`, `a = $18446744073709551617`, `a = $00000000001`,
+		// chains mixing '&' and '|' without parentheses are no sentences
+		`a="1" | b="2" & c="3"`, `a="1" & b="2" | c="3"`, `(a="1" | b="2" & c="3")`, `^a="1" & b="2" | c="3" ; d`,
 		// field lists naming a column more than once
 		`a = "b" ; c, c`, `a = "b" ; c, d, c`,
 		// white space other than blank, tab, CR, LF between tokens
